@@ -80,6 +80,13 @@ def imag(x):
     return x[1, ...]
 
 
+def _share_storage(x, y):
+    # two tensors (e.g. a tensor and a view of it) backed by the same memory
+    if hasattr(x, "untyped_storage"):
+        return x.untyped_storage().data_ptr() == y.untyped_storage().data_ptr()
+    return x.storage().data_ptr() == y.storage().data_ptr()
+
+
 def scalar_mult(x, y, out=None):
     """A function that computes the product between complex matrices and scalars,
     complex vectors and scalars or two complex scalars.
@@ -97,7 +104,7 @@ def scalar_mult(x, y, out=None):
     if out is None:
         out = torch.zeros(2, *((real(x) * real(y)).shape)).to(x)
     else:
-        if out is x or out is y:
+        if _share_storage(out, x) or _share_storage(out, y):
             raise RuntimeError("Can't overwrite an argument!")
 
     torch.mul(real(x), real(y), out=real(out)).sub_(torch.mul(imag(x), imag(y)))
